@@ -8,6 +8,8 @@
                    backtracking matcher tries them (earlier alternative first, more iterations first).
   * `Rx.Re.first`: the first of them = what Go's regexp (leftmost-first, the expression anchored at the start
                    `^(?:expr)`, not anchored at the end) reports as the length of the match.
+  * `Rx.Re.Matches`: the same language without any order (declarative clauses); `run` lists exactly its members
+                   (Proofs/RegexLang.lean).
   * `Rx.Sx`      : the surface syntax (classes `[...]`, literals, `\c`, `(?:...)`, `*`, `+`, `?`, `{n,n}`, `|`),
                    its printer `Sx.src` and its translation `Sx.re` to the core.
   * the five expressions of text/terminal as surface terms; their printed text IS the regenerated source
@@ -37,7 +39,8 @@ inductive Re
   | star (a : Re)
 
 /-- Greedy iteration of a body whose candidate lengths on `l` are `ra l`.  An iteration that consumes nothing is
-    not repeated (it could not change the position).  Every counted iteration consumes at least one byte, so
+    not repeated (it could not change the position; no starred body of the five expressions below can match the
+    empty string, so this clause is never exercised by them).  Every counted iteration consumes at least one byte, so
     `fuel = l.length` is enough; with less fuel the list is cut short. -/
 def starRun (ra : Bytes → List Nat) : Nat → Bytes → List Nat
   | 0, _ => [0]
@@ -60,6 +63,20 @@ def Re.run : Re → Nat → Bytes → List Nat
 
 /-- the leftmost-first match of the expression anchored at the start of `l`: its length -/
 def Re.first (r : Re) (l : Bytes) : Option Nat := (r.run l.length l).head?
+
+/-! ### the language, declaratively
+
+`Re.Matches r l k`: the expression matches the first `k` bytes of `l` — no order, no fuel, the textbook clauses
+(`star` = zero or more iterations).  Proofs/RegexLang.lean: for `fuel ≥ l.length`, `k ∈ r.run fuel l ↔ Re.Matches r l k`. -/
+inductive Re.Matches : Re → Bytes → Nat → Prop
+  | byte {p : Nat → Bool} {b : Nat} {t : Bytes} : p b = true → Matches (.byte p) (b :: t) 1
+  | rune {p : Nat → Bool} {l : Bytes} : l ≠ [] → p (Utf8.decodeRune l).1 = true → Matches (.rune p) l (Utf8.decodeRune l).2
+  | eps {l : Bytes} : Matches .eps l 0
+  | seq {a b : Re} {l : Bytes} {i j : Nat} : Matches a l i → Matches b (l.drop i) j → Matches (.seq a b) l (i + j)
+  | altL {a b : Re} {l : Bytes} {k : Nat} : Matches a l k → Matches (.alt a b) l k
+  | altR {a b : Re} {l : Bytes} {k : Nat} : Matches b l k → Matches (.alt a b) l k
+  | star0 {a : Re} {l : Bytes} : Matches (.star a) l 0
+  | starS {a : Re} {l : Bytes} {i j : Nat} : Matches a l i → Matches (.star a) (l.drop i) j → Matches (.star a) l (i + j)
 
 /-! derived forms -/
 def Re.plus (a : Re) : Re := .seq a (.star a)
